@@ -395,6 +395,16 @@ def ob_estimator(variant, ant, norm):
                                   np.shape(outb) == np.shape(wantb) and _meq(outb, wantb)))
             except PyRaise as pr:
                 goals.append(Goal("later estimate with fewer kept taps raised %r" % (pr.exc,), False))
+            # keeping EVERY tap (window as long as the allocation, and longer) is still the same estimator: exact for the first channel
+            for keep in (N - 1, N + 2):
+                argsk = list(args) if variant == "occ" else [Y, L]
+                argsk[1] = keep
+                try:
+                    outk = it.call(it.getattr(est, "estimate_channel_freq_domain"), argsk)
+                    goals.append(Goal("estimate with num_taps_to_keep = %d (no tap discarded) == DFT of the channel taps" % keep,
+                                      np.shape(outk) == np.shape(want) and _meq(outk, want)))
+                except PyRaise as pr:
+                    goals.append(Goal("estimate with num_taps_to_keep = %d raised %r" % (keep, pr.exc), False))
         return goals
     return verify(body, check_side=False, timeout_ms=120000, replay=_replay_estimator(variant, ant, norm, flat))
 
